@@ -26,7 +26,7 @@ Print Assumptions C06_dup_refused.
 
 (* every hand-over is attributed to the party id of its authenticated sender *)
 Theorem C06_source :
-  forall mm w k sy f p2p sid fp b, reachable mm w ->
+  forall mm w k sy f p2p sid fp b, reachable w ->
   In (ROnMsg sid fp b) (o_reached (snd (inject mm w k sy f p2p))) ->
   exists s, sget (sessions w) sid = Some s /\ s_api s = None /\ k = k1 (s_plan s) /\
             In f (p_members (s_plan s)) /\ fp = pid_of mm f /\ b = false.
